@@ -52,6 +52,7 @@ type ReplaySpec struct {
 	Files    []string `json:"files"` // extra overlay files (harness helpers) needed by the replay
 	Arch     string   `json:"arch"`
 	Mode     string   `json:"mode"` // "native": run the harness natively with the model; else template
+	Instrument []string `json:"instrument"` // repo files whose sync/atomic calls become scheduling points in the replay
 }
 
 type CheckConfig struct {
@@ -182,7 +183,7 @@ func buildOverlay(id string, u *Unit, repo string) (map[string]string, error) {
 	if err != nil {
 		return nil, err
 	}
-	intr := filepath.Join(wd, fmt.Sprintf("intr_%s_%s.go", u.Name, pkgName))
+	intr := filepath.Join(wd, fmt.Sprintf("intr_%s_%s_%d.go", u.Name, pkgName, os.Getpid()))
 	os.WriteFile(intr, []byte(strings.ReplaceAll(string(tmpl), "PACKAGE", pkgName)), 0o644)
 	ov[filepath.Join(pkgDir, "zz_verif_intrinsics.go")] = intr
 	for _, f := range u.Files {
@@ -409,7 +410,7 @@ func cmdCheck(args []string) int {
 	// clear previous job files
 	if ents, err := os.ReadDir(wd); err == nil {
 		for _, e := range ents {
-			if strings.HasPrefix(e.Name(), "job") {
+			if strings.HasPrefix(e.Name(), "job") || strings.HasPrefix(e.Name(), "intr_") || strings.HasPrefix(e.Name(), "subst_") {
 				os.Remove(filepath.Join(wd, e.Name()))
 			}
 		}
@@ -835,7 +836,7 @@ func substPkg(real, pkgName, wd string) string {
 	if err != nil || !strings.HasPrefix(string(b), "package PKG\n") {
 		return real
 	}
-	out := filepath.Join(wd, "subst_"+pkgName+"_"+filepath.Base(real))
+	out := filepath.Join(wd, fmt.Sprintf("subst_%s_%d_%s", pkgName, os.Getpid(), filepath.Base(real)))
 	os.WriteFile(out, []byte(strings.Replace(string(b), "package PKG\n", "package "+pkgName+"\n", 1)), 0o644)
 	return out
 }
